@@ -135,6 +135,12 @@ def nice_record(d0, d1, m):
         step = internal_step(nd, m)
         if step is None:
             return None
+    if not (isinstance(step, (int, float)) and step > 0 and math.isfinite(step)):
+        # the resulting domain has no tick step (nice() collapsed it, or worse): judge the observation in the units of the
+        # ORIGINAL domain's tick step - an end that moved inward is still an end that moved inward
+        step = internal_step([d0, d1], m)
+        if not (isinstance(step, (int, float)) and step > 0 and math.isfinite(step)):
+            return None
     lo, hi = min(d0, d1), max(d0, d1)
     nlo, nhi = min(nd), max(nd)
     un = units(step, min(lo, nlo), max(hi, nhi))
